@@ -18,7 +18,7 @@ def space(tier, seed):
     F = lambda t, i: ('f', t, i)
     A = lambda kind, sp, arg: ('agg', kind, sp, arg)
     doms = {
-        'intstr': ['0', '10', '9'], 'floatstr': ['0.5', '-2.25', '0'], 'int': [0, 10, -3], 'float': [0.5, -2.25, 0.0], 'poison': ['0', '10', 'x'], 'empty': ['7', '', ' '], 'formats': ['1e3', ' 7 ', '+3'], 'formats2': ['.5', '5.', '-007'],
+        'intstr': ['0', '10', '9'], 'floatstr': ['0.5', '-2.25', '0'], 'int': [0, 10, -3], 'float': [0.5, -2.25, 0.0], 'poison': ['0', '10', 'x'], 'empty': ['7', '', ' '], 'formats': ['1e3', ' 7 ', '+3'], 'tiny': ['1e-11', '3e-11', '-2e-11'], 'formats2': ['.5', '5.', '-007'],
     }
     spell = ['U', 'l', 'C']
     qs = []
